@@ -12,7 +12,10 @@ import re
 from vlib import core, pipeline
 from vlib.core import HarnessError, log
 
-TRACE = {"module": "T_IPAM", "cfg": "T_IPAM.cfg", "timeout": 1500, "heap": "4g"}
+TRACE = {"module": "T_IPAM", "cfg": "T_IPAM.cfg", "timeout": 1500, "heap": "4g",
+         # the real client spawns goroutines inside some calls (ReleaseIPs per block), so a rejected concurrent trace is
+         # re-executed up to 4 times; a verdict still needs a re-execution that is rejected again
+         "rerun_attempts": 4}
 ALLOW_ZERO = ("Tick", "Capture", "Crash")   # budgets of 0 in some design configs
 
 
